@@ -383,11 +383,11 @@ fn sweeps(t: Tier) -> Vec<Sweep> {
         Sweep { primary: "-name", prefix: vec![], alphabet: vec!["[", "]", "!", ":", ".", "=", "-", "\\", "*", "a", "\u{e9}"], maxlen: q(4, 6), extra: vec![], invalid: never },
         Sweep { primary: "-ipath", prefix: vec![], alphabet: vec!["[", "]", "!", ":", "\\", "*", "a", "\u{e9}"], maxlen: q(3, 5), extra: vec![], invalid: never },
         Sweep { primary: "-lname", prefix: vec![], alphabet: vec!["[", "]", ":", "a", "\u{e9}", "^"], maxlen: q(3, 5), extra: vec![], invalid: never },
-        Sweep { primary: "-perm", prefix: vec![], alphabet: vec!["u", "g", "o", "a", "+", "-", "=", "/", "r", "w", "x", "s", "t", "X", "7", "8", ","], maxlen: q(4, 5), extra: vec!["", "77777", "07777", "u=rwx,g=rx,o=", "-u+x,", "u+r,,g+w"], invalid: perm_invalid },
-        Sweep { primary: "-size", prefix: vec![], alphabet: vec!["+", "-", "0", "1", "9", "k", "c", "G", "x", " "], maxlen: q(4, 5), extra: vec!["", "9223372036854775807", "9223372036854775808", "18446744073709551615", "18446744073709551616", "+18446744073709551616k"], invalid: size_invalid },
-        Sweep { primary: "-type", prefix: vec![], alphabet: vec!["f", "d", "l", "p", "s", "b", "c", ",", "D", "x"], maxlen: q(2, 3), extra: vec![""], invalid: type_invalid },
+        Sweep { primary: "-perm", prefix: vec![], alphabet: vec!["u", "g", "o", "a", "+", "-", "=", "/", "r", "w", "x", "s", "t", "X", "7", "8", ",", "\u{e9}"], maxlen: q(4, 5), extra: vec!["", "77777", "07777", "u=rwx,g=rx,o=", "-u+x,", "u+r,,g+w"], invalid: perm_invalid },
+        Sweep { primary: "-size", prefix: vec![], alphabet: vec!["+", "-", "0", "1", "9", "k", "c", "G", "x", " ", "\u{e9}"], maxlen: q(4, 5), extra: vec!["", "9223372036854775807", "9223372036854775808", "18446744073709551615", "18446744073709551616", "+18446744073709551616k"], invalid: size_invalid },
+        Sweep { primary: "-type", prefix: vec![], alphabet: vec!["f", "d", "l", "p", "s", "b", "c", ",", "D", "x", "\u{e9}"], maxlen: q(2, 3), extra: vec![""], invalid: type_invalid },
         Sweep { primary: "-xtype", prefix: vec![], alphabet: vec!["f", "d", "l", ",", "x"], maxlen: q(2, 3), extra: vec![""], invalid: type_invalid },
-        Sweep { primary: "-maxdepth", prefix: vec![], alphabet: vec!["+", "-", "0", "1", "9", "x", " "], maxlen: q(3, 4), extra: vec!["", "18446744073709551616"], invalid: never },
+        Sweep { primary: "-maxdepth", prefix: vec![], alphabet: vec!["+", "-", "0", "1", "9", "x", " ", "\u{e9}"], maxlen: q(3, 4), extra: vec!["", "18446744073709551616"], invalid: never },
         Sweep { primary: "-mindepth", prefix: vec![], alphabet: vec!["+", "-", "0", "1", "x"], maxlen: q(3, 3), extra: vec![""], invalid: never },
         Sweep { primary: "-regextype", prefix: vec![], alphabet: vec![], maxlen: 0, extra: vec!["", "foo", "EMACS", "emacs ", "posix", "posix-extende", "posix-extended2", "awk", "posix-egrep", "egrep", "gnu-awk", "posix-awk", "posix-minimal-basic", "findutils-default", "ed", "sed", "grep", "emacs", "posix-basic", "posix-extended"], invalid: regextype_invalid },
         Sweep { primary: "-user", prefix: vec![], alphabet: vec![], maxlen: 0, extra: vec!["", "root", "0", "54321", "zzunknownuser", "zz 1", "99999999999999999999", "-1", "\u{e9}"], invalid: user_invalid },
